@@ -82,6 +82,7 @@ type Sim struct {
 	end                time.Time
 	locks              map[unsafe.Pointer]*lockState
 	pools              map[*sync.Pool][]any
+	poolOut map[any]struct{} // pooled objects (pointers) taken and not yet put back
 	conds              map[unsafe.Pointer][]*Task
 	poison, poisonInit bool
 	schedSig           uint64
